@@ -752,6 +752,10 @@ impl<'tcx> Cx<'tcx> {
                     let r = std::panic::catch_unwind(std::panic::AssertUnwindSafe(|| c.eval(tcx, env, rustc_span::DUMMY_SP)));
                     match r {
                         Ok(Ok(v)) => Some(v),
+                        Ok(Err(_)) => {
+                            o.set("eval_err", J::Bool(true));
+                            None
+                        }
                         _ => None,
                     }
                 }
@@ -792,7 +796,24 @@ impl<'tcx> Cx<'tcx> {
                         o.set("slice_len", J::Int(meta as i128));
                     }
                     ConstValue::ZeroSized => o.set("zst", J::Bool(true)),
-                    _ => {}
+                    ConstValue::Indirect { alloc_id, offset } => {
+                        // fat pointer (&[T] / &str) stored in memory: the length is the second word
+                        if let TyKind::Ref(_, inner, _) = cty.kind() {
+                            if inner.is_slice() || inner.is_str() {
+                                if let GlobalAlloc::Memory(m) = tcx.global_alloc(alloc_id) {
+                                    let alloc = m.inner();
+                                    let off = offset.bytes() as usize;
+                                    if alloc.len() >= off + 16 {
+                                        let bytes = alloc.inspect_with_uninit_and_ptr_outside_interpreter(off + 8..off + 16);
+                                        let mut b8 = [0u8; 8];
+                                        b8.copy_from_slice(bytes);
+                                        o.set("slice_len", J::Int(u64::from_le_bytes(b8) as i128));
+                                    }
+                                }
+                            }
+                        }
+                    }
+                    ConstValue::Scalar(_) => o.set("scalar_other", J::Bool(true)),
                 }
             }
         }
